@@ -54,8 +54,8 @@ def run(tier):
         agg = st["rv"]
         for fi, o in enumerate(agg["ops"]):
             fname = fields[fi]
-            if fname == "current_path":
-                continue
+            if fname not in ("common_context", "segments", "macros", "messages", "include_paths"):
+                continue      # not state that definitions live in (current path, nesting depth, ...)
             locs, consts, calls, places = MU.backward_slice(b, [o])
             names = [MU.callee_names(c)[1] for c in calls]
             fresh = [n for n in names if FRESH.match(n)]
